@@ -1,4 +1,5 @@
 import XmppModel.Model.Stanza
+import XmppModel.Lemmas.Encoder
 /-! Helper lemmas for the stanza / error codecs (C13). -/
 namespace XmppModel.Stanza
 open XmppModel.Xml
@@ -83,5 +84,97 @@ theorem map_lang_text (ns : String) (l : List (String × String)) :
   | cons p ps ih =>
     simp only [List.map_cons, langOf_textChild]
     rw [ih]; simp [textChild]
+
+end XmppModel.Stanza
+
+namespace XmppModel.Stanza
+open XmppModel.Xml
+
+/-! ### application payloads: a sequence of complete elements -/
+
+/-- a payload element: name, attributes, balanced content, name of its end tag -/
+structure Elem where
+  name : Name
+  attrs : List Attr
+  body : List Tok
+  stopName : Name
+
+def Elem.toks (e : Elem) : List Tok := .start e.name e.attrs :: e.body ++ [.stop e.stopName]
+
+def Elem.ok (e : Elem) : Prop := balanced e.body = true
+
+/-- inside a child (depth ≥ 1) a balanced piece of content changes nothing but the child's text -/
+theorem fold_body (body : List Tok) :
+    ∀ (r r' : Nat) (c : Child) (out : List Child), depthAfter r body = some r' →
+      ∃ t, body.foldl dstep ⟨r + 1, some c, out⟩ = ⟨r' + 1, some { c with text := t }, out⟩ := by
+  induction body with
+  | nil =>
+    intro r r' c out h
+    simp [depthAfter] at h
+    exact ⟨c.text, by simp [h]⟩
+  | cons t ts ih =>
+    intro r r' c out h
+    cases t with
+    | start n as =>
+      simp only [depthAfter] at h
+      obtain ⟨t', ht⟩ := ih (r + 1) r' c out h
+      exact ⟨t', by simp [dstep, ht]⟩
+    | stop n =>
+      cases r with
+      | zero => simp [depthAfter] at h
+      | succ k =>
+        simp only [depthAfter] at h
+        obtain ⟨t', ht⟩ := ih k r' c out h
+        exact ⟨t', by simp [dstep, ht]⟩
+    | chars s =>
+      simp only [depthAfter] at h
+      by_cases hr : r = 0
+      · subst hr
+        obtain ⟨t', ht⟩ := ih 0 r' { c with text := c.text ++ s } out h
+        exact ⟨t', by simp [dstep, ht]⟩
+      · obtain ⟨t', ht⟩ := ih r r' c out h
+        exact ⟨t', by simp [dstep, hr, ht]⟩
+    | comment s => simp only [depthAfter] at h; obtain ⟨t', ht⟩ := ih r r' c out h; exact ⟨t', by simp [dstep, ht]⟩
+    | procInst a b => simp only [depthAfter] at h; obtain ⟨t', ht⟩ := ih r r' c out h; exact ⟨t', by simp [dstep, ht]⟩
+    | directive s => simp only [depthAfter] at h; obtain ⟨t', ht⟩ := ih r r' c out h; exact ⟨t', by simp [dstep, ht]⟩
+
+/-- one complete element at the top level of the content adds one child with its name and
+attributes -/
+theorem fold_elem (e : Elem) (he : e.ok) (out : List Child) :
+    ∃ t, e.toks.foldl dstep ⟨0, none, out⟩ = ⟨0, none, out ++ [⟨e.name, e.attrs, t⟩]⟩ := by
+  have hb : depthAfter 0 e.body = some 0 := by simpa [Elem.ok, balanced] using he
+  obtain ⟨t, ht⟩ := fold_body e.body 0 0 ⟨e.name, e.attrs, ""⟩ out hb
+  refine ⟨t, ?_⟩
+  simp only [Elem.toks, List.cons_append, List.foldl_cons, List.foldl_append]
+  have h0 : dstep ⟨0, none, out⟩ (.start e.name e.attrs) = ⟨0 + 1, some ⟨e.name, e.attrs, ""⟩, out⟩ := by
+    simp [dstep]
+  rw [h0, ht]
+  simp [dstep]
+
+theorem fold_elems (es : List Elem) (hes : ∀ e ∈ es, e.ok) :
+    ∀ out, ∃ cs : List Child, cs.map (·.name) = es.map (·.name) ∧
+      (es.flatMap Elem.toks).foldl dstep ⟨0, none, out⟩ = ⟨0, none, out ++ cs⟩ := by
+  induction es with
+  | nil => intro out; exact ⟨[], rfl, by simp⟩
+  | cons e es ih =>
+    intro out
+    obtain ⟨t, ht⟩ := fold_elem e (hes e (by simp)) out
+    obtain ⟨cs, hn, hf⟩ := ih (fun x hx => hes x (by simp [hx])) (out ++ [⟨e.name, e.attrs, t⟩])
+    refine ⟨⟨e.name, e.attrs, t⟩ :: cs, by simp [hn], ?_⟩
+    simp only [List.flatMap_cons, List.foldl_append, ht, hf]
+    simp
+
+theorem depthAfter_elems (es : List Elem) (hes : ∀ e ∈ es, e.ok) (d : Nat) :
+    depthAfter d (es.flatMap Elem.toks) = some d := by
+  induction es with
+  | nil => simp [depthAfter]
+  | cons e es ih =>
+    have hb : depthAfter 0 e.body = some 0 := by simpa [Elem.ok, balanced] using hes e (by simp)
+    have h1 : depthAfter (d + 1) e.body = some (d + 1) := by
+      have := XmppModel.Encoder.depthAfter_shift e.body 0 0 (d + 1) hb
+      simpa using this
+    simp only [List.flatMap_cons, Elem.toks, List.cons_append, depthAfter, List.append_assoc]
+    rw [depthAfter_append, h1]
+    simp [depthAfter, ih (fun x hx => hes x (by simp [hx]))]
 
 end XmppModel.Stanza
